@@ -324,6 +324,15 @@ def build_cases(ctx, n_raw, n_inc, n_bad):
              'S': rng.choice([None, 0.0, 11.5]), 'evalTs': [298.15, 300.0, 99.0, 1000.0, 2000.0], 'tref_region': 'none'}
         c['via_yaml'] = rng.random() < 0.5
         cases.append(c)
+    # ... whose reference temperature sits ON a bound of the range, probed a hair outside it (the only out-of-range signal of such a
+    # correlation is the warning, and it is due for every T other than T_ref)
+    import math
+    for Tr, rg in ((298.0, [298.0, 300.0]), (300.0, [298.0, 300.0]), (298.15, [298.15, 1000.0]), (500.0, [100.0, 500.0])):
+        lo, hi = rg
+        c = {'op': 'corr', 'cls': 'inc', 'Ts': [], 'Cps': [], 'T_ref': Tr, 'range': rg, 'H': rng.choice([0.0, -3.25, 12.5]), 'S': rng.choice([0.0, 11.5]),
+             'evalTs': [Tr, math.nextafter(lo, -math.inf), math.nextafter(hi, math.inf), lo - 1e-7, hi + 1e-7, lo * (1 - 5e-10), hi * (1 + 5e-10), lo - 1e-3, hi + 1e-3],
+             'tref_region': 'none'}
+        cases.append(c)
     return cases
 
 
